@@ -1,7 +1,9 @@
 package c20
 
 import (
+	"encoding/json"
 	"math/rand"
+	"sort"
 	"strings"
 
 	"verif/harness/mbt"
@@ -22,6 +24,37 @@ func moduleOrder(rep *mbt.Report, tier string, rng *rand.Rand) {
 	vs := trcheck.Generate(rep, "perms", permAll)
 	cs := trcheck.Run(vs)
 	n, discarded := 0, 0
+	// the permutations of one source are the same multiset of entities: whether the parser accepts must
+	// not depend on the order (that every one of them is accepted is C01's business)
+	group := func(c *trcheck.Case) string {
+		var es []string
+		for i := range c.Src {
+			b, _ := json.Marshal(c.Src[i])
+			es = append(es, string(b))
+		}
+		sort.Strings(es)
+		return strings.Join(es, "\n")
+	}
+	accepted, rejected := map[string]*trcheck.Case{}, map[string]*trcheck.Case{}
+	for _, c := range cs {
+		if c.Want.St != "ok" || !c.LLVMOK {
+			continue
+		}
+		if c.Mod != nil {
+			accepted[group(c)] = c
+		} else {
+			rejected[group(c)] = c
+		}
+	}
+	for g, r := range rejected {
+		if a, ok := accepted[g]; ok {
+			msg := r.Panic
+			if r.Err != nil {
+				msg = r.Err.Error()
+			}
+			rep.Fail(mbt.Failure{Signature: "C20|permutation-changes-acceptance", What: "one order of the top-level entities is accepted, another order of the same entities is rejected: " + mbt.Truncate(msg, 200) + "\nrejected order:\n" + mbt.Truncate(r.Text, 400) + "\naccepted order:\n" + mbt.Truncate(a.Text, 400), Case: map[string]string{"src": r.Text}})
+		}
+	}
 	for _, c := range cs {
 		if c.Want.St != "ok" {
 			continue
